@@ -233,10 +233,25 @@ structure LeakySt where
   full : Array (UInt64 × UInt64)
   constHint : Option HintVal
 
+/-- `(free_weight * distribution(symbol ± 0.5)).as_()` on the **software IEEE model** (`binary64`),
+    from the same recorded values; the argument `symbol ± 0.5` is formed natively (it is exact for
+    every symbol type that converts losslessly to `f64`) -/
+def leakyExtSoft (B free : Nat) (tab : Array (UInt64 × UInt64)) (half : Float) : Ext := fun s =>
+  match recLookup tab (Float.ofInt s + half).toBits with
+  | none => none
+  | some c => some (binary64.toUInt B (binary64.mul (binary64.ofNat free) (binary64.ofBits c.toNat)))
+
+/-- the answer is the software model's (what `C03_ieee_leaky_wellFormed` speaks about); the native
+    replica must agree, otherwise the value is withheld (`missing`), which cannot match the
+    implementation -/
 def LeakySt.ext (st : LeakySt) (rec : Array (UInt64 × UInt64)) (half : Float) : Ext := fun s =>
-  match leakyExt st.m.B st.m.free rec half s with
+  let pick (t : Array (UInt64 × UInt64)) : Option Nat :=
+    match leakyExtSoft st.m.B st.m.free t half s, leakyExt st.m.B st.m.free t half s with
+    | some a, some b => if a == b then some a else none
+    | _, _ => none
+  match pick rec with
   | some v => some v
-  | none => leakyExt st.m.B st.m.free st.full half s
+  | none => pick st.full
 
 def showSymTriples (t : SymTy) (l : List (Int × Nat × Nat)) : String :=
   if l.isEmpty then "-" else
